@@ -39,6 +39,9 @@
 (***************************************************************************)
 EXTENDS ColourMath, LnExp
 
+(* Evaluation note: TLC re-evaluates a LET definition at every use but evaluates an operator ARGUMENT once;
+   every expensive value used more than once below is therefore passed as an argument (operators named ...1). *)
+
 DyV(js) == [i \in DOMAIN js |-> Dy(js[i])]
 FxV(js) == [i \in DOMAIN js |-> FxOf(js[i])]
 (* an Fx value as an exact dyadic / as a logged number (used by the model checks) *)
@@ -54,10 +57,10 @@ DyBits(a, b, scale) == IF DyEq(a, b) THEN 200
 DyRelBits(a, b) == DyBits(a, b, DyMaxAbs(a, b))
 DyMag3(v) == DyMax(DyAbs(v[1]), DyMax(DyAbs(v[2]), DyAbs(v[3])))
 Dy360 == DyFromInt(360)
-(* two hues in degrees (raw, each within one turn of [-360, 720]) describe the same direction *)
-DyHueBits(h1, h2) == LET d == DyAbs(DySub(h1, h2))
-                         dd == DyMin(d, DyMin(DyAbs(DySub(d, Dy360)), DyAbs(DySub(d, DyFromInt(720)))))
-                     IN IF DyIsZero(dd) THEN 200 ELSE DyLog2(Dy360) - DyLog2(dd)
+(* two hues in degrees (raw, within two turns of each other) describe the same direction *)
+DyHueBits2(dd) == IF DyIsZero(dd) THEN 200 ELSE DyLog2(Dy360) - DyLog2(dd)
+DyHueBits1(d) == DyHueBits2(DyMin(d, DyMin(DyAbs(DySub(d, Dy360)), DyAbs(DySub(d, DyFromInt(720))))))
+DyHueBits(h1, h2) == IF h1 = h2 THEN 200 ELSE DyHueBits1(DyAbs(DySub(h1, h2)))
 
 -----------------------------------------------------------------------------
 (* Domain.  CAT16 (Li et al. 2017, eq. (3)): cone-like responses (R, G, B) = M16 (X, Y, Z).      *)
@@ -73,13 +76,12 @@ Median3(a, b, d) == FxMax(FxMin(a, b), FxMin(FxMax(a, b), d))
      - all three cone responses non-negative (contains the whole sRGB gamut: its primaries have positive responses), or
      - the sign-sensitive collar: one response negative, at most 1/16 of the smaller of the other two in magnitude.
    Inputs below 2^-34 in magnitude (other than exact black) are not judged (underflow of f32 intermediates). *)
-InDomain(x) ==
-  LET c == Cone(x)
-      mn == FxMin(c[1], FxMin(c[2], c[3]))
-      mid == Median3(c[1], c[2], c[3])
-  IN /\ FxLe(FxEps(34), Mag3(x))
-     /\ (~FxIsNeg(mn) \/ FxLe(FxMulInt(FxNeg(mn), 16), mid))
-InCollar(x) == InDomain(x) /\ FxIsNeg(FxMin(Cone(x)[1], FxMin(Cone(x)[2], Cone(x)[3])))
+InDomain2(x, mn, mid) == /\ FxLe(FxEps(34), Mag3(x))
+                         /\ (~FxIsNeg(mn) \/ FxLe(FxMulInt(FxNeg(mn), 16), mid))
+InDomain1(x, c) == InDomain2(x, FxMin(c[1], FxMin(c[2], c[3])), Median3(c[1], c[2], c[3]))
+InDomain(x) == InDomain1(x, Cone(x))
+InCollar1(x, c) == InDomain1(x, c) /\ FxIsNeg(FxMin(c[1], FxMin(c[2], c[3])))
+InCollar(x) == InCollar1(x, Cone(x))
 
 -----------------------------------------------------------------------------
 (* The attribute vector of a full colour is <<J, C, h, Q, M, s>> (declaration order of palette's Cam16);
@@ -91,9 +93,8 @@ Project(full, k) == <<full[LumIdx(k)], full[ChrIdx(k)], full[3]>>
 MagIdx == {1, 2, 4, 5, 6}
 
 (* (1) round trip: every component within 2^-bits of the magnitude of the XYZ vector *)
-RoundTripBits(x, back) ==
-  LET sc == DyMax(DyMag3(x), DyMag3(back))
-  IN Min3i(DyBits(back[1], x[1], sc), DyBits(back[2], x[2], sc), DyBits(back[3], x[3], sc))
+RoundTripBits1(x, back, sc) == Min3i(DyBits(back[1], x[1], sc), DyBits(back[2], x[2], sc), DyBits(back[3], x[3], sc))
+RoundTripBits(x, back) == RoundTripBits1(x, back, DyMax(DyMag3(x), DyMag3(back)))
 
 (* (3) attribute vectors agree: magnitudes relatively (every link between them is a product, a quotient or a
    square root, so rounding stays relative), hues as directions *)
@@ -123,24 +124,38 @@ PubS2(p, jr, alpha) == FxDiv(FxMulInt(PubM(p, jr, alpha), 10000), PubQ(p, jr))  
 PaletteS2(p, alpha) == FxDiv(FxMulInt(FxMul(p.c, alpha), 2500), FxAdd(p.aw, FxInt(4)))        \* s = 50 sqrt(c alpha/(A_w+4))
 
 -----------------------------------------------------------------------------
-(* (5) CAM16-UCS, Li et al. 2017 section 5: c1 = 0.007, c2 = 0.0228 *)
+(* (5) CAM16-UCS, Li et al. 2017 section 5: c1 = 0.007, c2 = 0.0228.  The rational relations are evaluated exactly on
+   the dyadics; logarithm, exponential, sine and cosine in fixed point with fl fractional limbs (module LnExp):
+   fl = 8 in the model checks, Prec(t) when judging recordings. *)
+Prec(t) == IF t = "f32" THEN 3 ELSE 5
+(* J' (1 + 0.007 J) = 1.7 J, as J' (1000 + 7 J) = 1700 J *)
+UcsJBits(J, Jp) == DyRelBits(DyMul(Jp, DyAdd(DyFromInt(1000), DyMulInt(J, 7))), DyMulInt(J, 1700))
+(* the published inverse J = J' / (1.7 - 0.007 J'), as J (1700 - 7 J') = 1000 J' *)
+UcsJInvBits(Jp, J) == DyRelBits(DyMul(J, DySub(DyFromInt(1700), DyMulInt(Jp, 7))), DyMulInt(Jp, 1000))
+C0228P(fl) == PRat(228, 10000, fl)
+(* 0.0228 M' = ln(1 + 0.0228 M): the code rounds 1 + 0.0228 M to the grid of 1, so the error is judged against max(1, ln) *)
+UcsMBits1(l, ln, fl) == AgreeBits(l, ln, IMax(POne(fl), IAbs(ln)))
+UcsMBitsP(M, Mp, fl) == UcsMBits1(PMul(C0228P(fl), Mp, fl), LnP(IAdd(POne(fl), PMul(C0228P(fl), M, fl)), fl), fl)
+UcsMBits(M, Mp, fl) == UcsMBitsP(POfDy(M, fl), POfDy(Mp, fl), fl)
+(* the published inverse M = (exp(0.0228 M') - 1)/0.0228, as exp(0.0228 M') = 1 + 0.0228 M *)
+UcsMInvBits1(ex, r, fl) == AgreeBits(ex, r, IMax(POne(fl), ex))
+UcsMInvBitsP(Mp, M, fl) == UcsMInvBits1(ExpP(PMul(C0228P(fl), Mp, fl), fl), IAdd(POne(fl), PMul(C0228P(fl), M, fl)), fl)
+UcsMInvBits(Mp, M, fl) == UcsMInvBitsP(POfDy(Mp, fl), POfDy(M, fl), fl)
+(* (J', a', b') is the rectangular form of (J', M', h): J' unchanged, M' >= 0, a' = M' cos h, b' = M' sin h; the three
+   magnitudes are first scaled by the same power of two so that the largest lies in [1, 2) *)
+PolarMag(rect, pol) == DyMax(DyAbs(pol[2]), DyMax(DyAbs(rect[2]), DyAbs(rect[3])))
+UcsPolarBits2(a, b, m, sc, fl) == Min2i(AgreeBits(a, PMul(m, sc[2], fl), POne(fl)), AgreeBits(b, PMul(m, sc[1], fl), POne(fl)))
+UcsPolarBits1(rect, pol, k, fl) ==
+  UcsPolarBits2(POfDy(DyMulPow2(rect[2], k), fl), POfDy(DyMulPow2(rect[3], k), fl), POfDy(DyMulPow2(pol[2], k), fl),
+                SinCosP(POfDy(pol[3], fl), fl), fl)
+UcsPolarBits(rect, pol, fl) ==
+  IF DySign(pol[2]) < 0 THEN 0
+  ELSE Min2i(DyRelBits(rect[1], pol[1]),
+             IF DyIsZero(PolarMag(rect, pol)) THEN 200 ELSE UcsPolarBits1(rect, pol, -DyLog2(PolarMag(rect, pol)), fl))
+(* model-side functions (TLC only evaluates them on its own grid, in Fx) *)
 C007 == FxRat(7, 1000)
 C17 == FxRat(17, 10)
 C0228 == FxRat(228, 10000)
-RelFx(l, r) == AgreeBits(l, r, AtLeast(FxMax(FxAbs(l), FxAbs(r)), 90))
-(* J' (1 + 0.007 J) = 1.7 J *)
-UcsJBits(J, Jp) == RelFx(FxMul(Jp, FxAdd(FxOne, FxMul(C007, J))), FxMul(C17, J))
-(* the published inverse J = J' / (1.7 - 0.007 J'), as J (1.7 - 0.007 J') = J' *)
-UcsJInvBits(Jp, J) == RelFx(FxMul(J, FxSub(C17, FxMul(C007, Jp))), Jp)
-(* 0.0228 M' = ln(1 + 0.0228 M): the code rounds 1 + 0.0228 M to the grid of 1, so the error is judged against max(1, ln) *)
-UcsMBits(M, Mp) == LET ln == FxLn(FxAdd(FxOne, FxMul(C0228, M)))
-                   IN AgreeBits(FxMul(C0228, Mp), ln, FxMax(FxOne, FxAbs(ln)))
-(* the published inverse M = (exp(0.0228 M') - 1)/0.0228, as exp(0.0228 M') = 1 + 0.0228 M *)
-UcsMInvBits(Mp, M) == LET ex == FxExp(FxMul(C0228, Mp))
-                      IN AgreeBits(ex, FxAdd(FxOne, FxMul(C0228, M)), FxMax(FxOne, ex))
-(* (J', a', b') is the rectangular form of (J', M', h): ColourMath!PolarBits *)
-UcsPolarBits(jab, jmh) == PolarBits(jab, jmh)
-(* model-side functions (TLC only evaluates them on its own grid) *)
 UcsJFwd(J) == FxDiv(FxMul(C17, J), FxAdd(FxOne, FxMul(C007, J)))
 UcsJInv(Jp) == FxDiv(Jp, FxSub(C17, FxMul(C007, Jp)))
 UcsMFwd(M) == FxDiv(FxLn(FxAdd(FxOne, FxMul(C0228, M))), C0228)
@@ -150,14 +165,9 @@ UcsMInv(Mp) == FxDiv(FxSub(FxExp(FxMul(C0228, Mp)), FxOne), C0228)
 (* Thresholds (bits of agreement required).  Principled bounds: a round trip chains about 40 roundings and three
    power functions with exponents up to 2.4, i.e. some 2^6 u; the attribute links a dozen roundings; the UCS
    transformations 4 roundings around a logarithm.  Calibration on the pinned tree over the whole parameter
-   lattice and random conditions (thorough tier, both tiers seed 1..3), worst case observed in bits -> threshold:
-     round trip            f64 46 -> 42      f32 17 -> 13       (>= 8x margin, see RtThr)
-     attribute vectors     f64 49 -> 45      f32 20 -> 16
-     links (products)      f64 49 -> 45      f32 20 -> 16
-     adopted white J=100   f64 51 -> 45      f32 22 -> 16
-     UCS relations         f64 50 -> 46      f32 21 -> 17
-     UCS round trip        f64 42 -> 38      f32 13 -> 10   (relative to max(1, M): 1 + 0.0228 M absorbs small M)
-   (the figures are refreshed from the evidence file: largest deviations are recorded there at every run) *)
+   lattice and random conditions (thorough tier), worst case observed in bits -> threshold:
+   CALIBRATION-TABLE
+   (the largest deviations of every run are recorded in the evidence file) *)
 F32(t) == t = "f32"
 RtThr(t) == IF F32(t) THEN 13 ELSE 42
 AttrThr(t) == IF F32(t) THEN 16 ELSE 45
@@ -176,15 +186,23 @@ ConvFinite(e) == AllFin(e.full) /\ AllFin(e.fback) /\ AllFin(e.part) /\ AllFin(e
 BlackOK(e) == /\ ConvFinite(e)
               /\ ZeroAt(e.full, MagIdx) /\ ZeroAt(e.exp, MagIdx) /\ ZeroAt(e.part, {1, 2}) /\ ZeroAt(e.proj, {1, 2})
               /\ IsZeroV(e.fback) /\ IsZeroV(e.pback)
-ConvBits(e) ==
-  LET x == DyV(e.x)  full == DyV(e.full)
-  IN [ rtf |-> RoundTripBits(x, DyV(e.fback)),
-       rtp |-> RoundTripBits(x, DyV(e.pback)),
-       pp  |-> PartBits(DyV(e.part), DyV(e.proj)),
-       ef  |-> FullBits(DyV(e.exp), full),
-       sat |-> SatLinkBits(DyMul(full[6], full[6]), full[4], full[5]),
-       wj  |-> IF e.w = 1 THEN DyRelBits(full[1], DyFromInt(100)) ELSE 200 ]
+ConvBits1(e, x, full) ==
+  [ rtf |-> RoundTripBits(x, DyV(e.fback)),
+    rtp |-> IF e.pback = e.fback THEN 999 ELSE RoundTripBits(x, DyV(e.pback)),      \* 999: same as rtf
+    pp  |-> IF e.part = e.proj THEN 200 ELSE PartBits(DyV(e.part), DyV(e.proj)),
+    ef  |-> FullBits(DyV(e.exp), full),
+    sat |-> SatLinkBits(DyMul(full[6], full[6]), full[4], full[5]),
+    wj  |-> IF e.w = 1 THEN DyRelBits(full[1], DyFromInt(100)) ELSE 200 ]
+ConvBits(e) == ConvBits1(e, DyV(e.x), DyV(e.full))
 ConvJudged(e) == e.panic = 0 /\ AllFin(e.x) /\ ~IsZeroV(e.x) /\ InDomain(FxV(e.x)) /\ ConvFinite(e)
+ConvVerdict(b, t) ==
+  IF b.rtf < RtThr(t) THEN "full-round-trip"
+  ELSE IF b.rtp < RtThr(t) THEN "partial-round-trip"
+  ELSE IF b.pp < AttrThr(t) THEN "from-xyz-differs-from-projection"
+  ELSE IF b.ef < AttrThr(t) THEN "into-full-differs-from-full"
+  ELSE IF b.sat < LinkThr(t) THEN "saturation-link"
+  ELSE IF b.wj < AttrThr(t) THEN "white-not-100"
+  ELSE "ok"
 ConvWhy(e) ==
   IF e.panic = 1 THEN "panic"
   ELSE IF ~AllFin(e.x) THEN "ok"
@@ -192,22 +210,15 @@ ConvWhy(e) ==
   ELSE IF ~InDomain(FxV(e.x)) THEN "ok"
   ELSE IF ~ConvFinite(e) THEN "non-finite"
   ELSE IF e.proj # Project(e.full, e.pk) THEN "projection-not-exact"
-  ELSE LET b == ConvBits(e)  t == e.t
-       IN IF b.rtf < RtThr(t) THEN "full-round-trip"
-          ELSE IF b.rtp < RtThr(t) THEN "partial-round-trip"
-          ELSE IF b.pp < AttrThr(t) THEN "from-xyz-differs-from-projection"
-          ELSE IF b.ef < AttrThr(t) THEN "into-full-differs-from-full"
-          ELSE IF b.sat < LinkThr(t) THEN "saturation-link"
-          ELSE IF b.wj < AttrThr(t) THEN "white-not-100"
-          ELSE "ok"
+  ELSE ConvVerdict(ConvBits(e), e.t)
 
 (* A `pair` event: two colours x1, x2 converted under the same params; f1, f2 their full attribute vectors *)
-PairJudged(e) == e.panic = 0 /\ AllFin(e.x1) /\ AllFin(e.x2) /\ (IsZeroV(e.x1) \/ InDomain(FxV(e.x1)))
-                 /\ (IsZeroV(e.x2) \/ InDomain(FxV(e.x2))) /\ AllFin(e.f1) /\ AllFin(e.f2)
+PairInDomain(e) == (IsZeroV(e.x1) \/ InDomain(FxV(e.x1))) /\ (IsZeroV(e.x2) \/ InDomain(FxV(e.x2)))
+PairJudged(e) == e.panic = 0 /\ AllFin(e.x1) /\ AllFin(e.x2) /\ PairInDomain(e) /\ AllFin(e.f1) /\ AllFin(e.f2)
 PairWhy(e) ==
   IF e.panic = 1 THEN "panic"
   ELSE IF ~(AllFin(e.x1) /\ AllFin(e.x2)) THEN "ok"
-  ELSE IF ~((IsZeroV(e.x1) \/ InDomain(FxV(e.x1))) /\ (IsZeroV(e.x2) \/ InDomain(FxV(e.x2)))) THEN "ok"
+  ELSE IF ~PairInDomain(e) THEN "ok"
   ELSE IF ~(AllFin(e.f1) /\ AllFin(e.f2)) THEN "non-finite"
   ELSE IF PairBits(DyV(e.f1), DyV(e.f2)) < LinkThr(e.t) THEN "attribute-ratios"
   ELSE "ok"
@@ -215,35 +226,37 @@ PairWhy(e) ==
 (* A `ucs` event: jmh (Cam16Jmh: J, M, h) -> ujmh (Cam16UcsJmh) -> ujab (Cam16UcsJab) -> ujmhb (Cam16UcsJmh) ->
    jmhb (Cam16Jmh); ujabd = Cam16UcsJab from jmh and jmhd = Cam16Jmh from ujab by the derived routes;
    ujmhc = the clamping FromColor of the first step *)
-UcsInDomain(jmh) == ~FxIsNeg(jmh[1]) /\ ~FxIsNeg(jmh[2]) /\ FxLe(jmh[1], FxInt(200)) /\ FxLe(jmh[2], FxInt(1000))
+UcsInDomain(jmh) == DySign(jmh[1]) >= 0 /\ DySign(jmh[2]) >= 0 /\ DyLe(jmh[1], DyFromInt(200)) /\ DyLe(jmh[2], DyFromInt(1000))
+                    /\ DyLe(DyAbs(jmh[3]), DyFromInt(1080))
 UcsFinite(e) == AllFin(e.ujmh) /\ AllFin(e.ujab) /\ AllFin(e.ujabd) /\ AllFin(e.ujmhb) /\ AllFin(e.jmhb) /\ AllFin(e.jmhd) /\ AllFin(e.ujmhc)
-(* colourfulness round trip, relative to max(1, M) *)
-MRtBits(a, b) == AgreeBits(a, b, FxMax(FxOne, FxMax(FxAbs(a), FxAbs(b))))
-HueRtBits(h1, h2, m) == IF FxLt(m, FxEps(40)) THEN 200            \* no direction left to preserve
-                        ELSE DyHueBits(DyOfFx(h1), DyOfFx(h2))
-UcsBits(e) ==
-  LET jmh == FxV(e.jmh)  ujmh == FxV(e.ujmh)  ujab == FxV(e.ujab)  ujabd == FxV(e.ujabd)
-      ujmhb == FxV(e.ujmhb)  jmhb == FxV(e.jmhb)  jmhd == FxV(e.jmhd)
-  IN [ fj  |-> UcsJBits(jmh[1], ujmh[1]),
-       fm  |-> UcsMBits(jmh[2], ujmh[2]),
-       pol |-> Min3i(UcsPolarBits(ujab, ujmh), UcsPolarBits(ujabd, ujmh), UcsPolarBits(ujab, ujmhb)),
-       ij  |-> Min2i(UcsJInvBits(ujmhb[1], jmhb[1]), UcsJInvBits(ujab[1], jmhd[1])),
-       im  |-> Min2i(UcsMInvBits(ujmhb[2], jmhb[2]), UcsMInvBits(ujmhb[2], jmhd[2])),
-       rt  |-> Min2i(Min3i(RelFx(jmhb[1], jmh[1]), MRtBits(jmhb[2], jmh[2]), HueRtBits(jmhb[3], jmh[3], ujmh[2])),
-                     Min3i(RelFx(ujmhb[1], ujmh[1]), MRtBits(ujmhb[2], ujmh[2]), HueRtBits(ujmhb[3], ujmh[3], ujmh[2]))) ]
-UcsJudged(e) == e.panic = 0 /\ AllFin(e.jmh) /\ UcsInDomain(FxV(e.jmh)) /\ UcsFinite(e)
+(* colourfulness round trip, relative to max(1, M): 1 + 0.0228 M absorbs a small M *)
+MRtBits(a, b) == DyBits(a, b, DyMax(DyFromInt(1), DyMaxAbs(a, b)))
+HueRtBits(h1, h2, m) == IF DyLt(m, DyPow2(-40)) THEN 200            \* no direction left to preserve
+                        ELSE DyHueBits(h1, h2)
+UcsBits1(e, jmh, ujmh, ujab, ujmhb, jmhb, fl) ==
+  [ fj  |-> UcsJBits(jmh[1], ujmh[1]),
+    fm  |-> UcsMBits(jmh[2], ujmh[2], fl),
+    pol |-> Min3i(UcsPolarBits(ujab, ujmh, fl), IF e.ujabd = e.ujab THEN 999 ELSE UcsPolarBits(DyV(e.ujabd), ujmh, fl),
+                  UcsPolarBits(ujab, ujmhb, fl)),
+    ij  |-> Min2i(UcsJInvBits(ujmhb[1], jmhb[1]), UcsJInvBits(ujab[1], Dy(e.jmhd[1]))),
+    im  |-> Min2i(UcsMInvBits(ujmhb[2], jmhb[2], fl), IF e.jmhd[2] = e.jmhb[2] THEN 999 ELSE UcsMInvBits(ujmhb[2], Dy(e.jmhd[2]), fl)),
+    rt  |-> Min2i(Min3i(DyRelBits(jmhb[1], jmh[1]), MRtBits(jmhb[2], jmh[2]), HueRtBits(jmhb[3], jmh[3], ujmh[2])),
+                  Min3i(DyRelBits(ujmhb[1], ujmh[1]), MRtBits(ujmhb[2], ujmh[2]), HueRtBits(ujmhb[3], ujmh[3], ujmh[2]))) ]
+UcsBits(e) == UcsBits1(e, DyV(e.jmh), DyV(e.ujmh), DyV(e.ujab), DyV(e.ujmhb), DyV(e.jmhb), Prec(e.t))
+UcsJudged(e) == e.panic = 0 /\ AllFin(e.jmh) /\ UcsInDomain(DyV(e.jmh)) /\ UcsFinite(e)
+UcsVerdict(b, t) ==
+  IF b.fj < UcsThr(t) THEN "ucs-lightness"
+  ELSE IF b.fm < UcsThr(t) THEN "ucs-colourfulness"
+  ELSE IF b.pol < UcsThr(t) THEN "ucs-polar"
+  ELSE IF b.ij < UcsThr(t) THEN "ucs-lightness-inverse"
+  ELSE IF b.im < UcsThr(t) THEN "ucs-colourfulness-inverse"
+  ELSE IF b.rt < UcsRtThr(t) THEN "ucs-round-trip"
+  ELSE "ok"
 UcsWhy(e) ==
   IF e.panic = 1 THEN "panic"
-  ELSE IF ~AllFin(e.jmh) \/ ~UcsInDomain(FxV(e.jmh)) THEN "ok"
+  ELSE IF ~AllFin(e.jmh) \/ ~UcsInDomain(DyV(e.jmh)) THEN "ok"
   ELSE IF ~UcsFinite(e) THEN "non-finite"
   ELSE IF e.ujmh[3] # e.jmh[3] THEN "ucs-hue-not-copied"
-  ELSE IF FxLe(FxOf(e.ujmh[1]), FxInt(100)) /\ e.ujmhc # e.ujmh THEN "clamped-differs-in-bounds"
-  ELSE LET b == UcsBits(e)  t == e.t
-       IN IF b.fj < UcsThr(t) THEN "ucs-lightness"
-          ELSE IF b.fm < UcsThr(t) THEN "ucs-colourfulness"
-          ELSE IF b.pol < UcsThr(t) THEN "ucs-polar"
-          ELSE IF b.ij < UcsThr(t) THEN "ucs-lightness-inverse"
-          ELSE IF b.im < UcsThr(t) THEN "ucs-colourfulness-inverse"
-          ELSE IF b.rt < UcsRtThr(t) THEN "ucs-round-trip"
-          ELSE "ok"
+  ELSE IF DyLe(Dy(e.ujmh[1]), DyFromInt(100)) /\ e.ujmhc # e.ujmh THEN "clamped-differs-in-bounds"
+  ELSE UcsVerdict(UcsBits(e), e.t)
 =============================================================================
